@@ -876,6 +876,42 @@ def r14_alloc_failure_propagated(run, F):
     run.ob("R14-ALLOC-FAILURE-PROPAGATED", "scan", n >= 150, "src/delta", "%d fallible calls of the second-generation lexer and parser examined (floor 150); none is discarded" % n)
 
 
+def r15_counters_bounded_in_loop(run, F, part="/delta/", floor=3):
+    """The depth counters of the second-generation parser are u8.  Each `counter += 1` inside a loop that the input controls (one
+    iteration per `&`) is bounded in the same iteration: the loop body compares the counter with its limit and leaves the function
+    or the loop.  A check hoisted behind the loop still rejects 128..=255 ampersands with E390 and lets the 256th overflow the
+    counter: a panic in a debug build, a silent wrap (and a bypassed limit) in release."""
+    n = 0
+    for p, b in sorted(F.lib.bodies.items()):
+        if "hir" not in b or part not in b["file"] or F.rel(b["file"]).endswith("fuzzer.rs"):
+            continue
+        for lp in [x for x in walk(b["hir"]) if x.get("k") == "Loop"]:
+            inner_loops = [y for y in walk(lp) if y.get("k") == "Loop" and y is not lp]
+            for a in walk(lp):
+                if a.get("k") != "AssignOp" or a.get("op") not in ("Add", "AddAssign"):
+                    continue
+                if any(a is z for il in inner_loops for z in walk(il)):
+                    continue          # belongs to the inner loop
+                l = hirq.unwrap_trivial(a["lhs"])
+                t = str(F.lib.types[l["t"]]) if l.get("t") is not None else "?"
+                if t not in ("u8", "u16", "i8", "i16") or l.get("k") != "Path":
+                    continue
+                n += 1
+                bounded = False
+                for c in walk(lp):
+                    if c.get("k") == "If":
+                        cond = hirq.unwrap_trivial(c["cond"])
+                        cmp_ = [x for x in walk(cond) if x.get("k") == "Binary" and x.get("op") in ("Gt", "Ge", "Lt", "Le", "Eq") and
+                                any(y.get("k") == "Path" and y.get("lid") == l.get("lid") for y in walk(x))]
+                        leaves = any(y.get("k") in ("Ret", "Break") for y in walk(c["then"])) or (c.get("else") is not None and any(y.get("k") in ("Ret", "Break") for y in walk(c["else"])))
+                        if cmp_ and leaves:
+                            bounded = True
+                run.ob("R15-COUNTER-BOUNDED-IN-LOOP", "%s|%s" % (p.split("::")[-1], n), bounded, F.where(b, a),
+                       "a %s counter is incremented once per iteration of a loop over input tokens and not compared with its limit inside that loop: "
+                       "the 256th iteration overflows it (panic in debug builds, wrap-around in release) before the check behind the loop runs" % t)
+    run.floor("R15-COUNTER-BOUNDED-IN-LOOP", floor, "narrow counters incremented in loops under %s" % part)
+
+
 def check(run):
     F = run.facts("A")
     r13_asserted_capacity(run, F)
@@ -891,6 +927,7 @@ def check(run):
     r11b_one_take_past_end(run, F)
     r12_protocol(run, F)
     r14_alloc_failure_propagated(run, F)
+    r15_counters_bounded_in_loop(run, F)
     # "every input containing an invalid lexeme is rejected": the digit classifiers decide which bytes a literal swallows
     from props import c14
     c14.r7_digit_tables(run, F)
